@@ -1,7 +1,10 @@
 package rules
 
 import (
+	"fmt"
+	"strconv"
 	"strings"
+	"syscall"
 
 	"golang.org/x/tools/go/ssa"
 
@@ -150,6 +153,8 @@ func c17(e *Env) {
 	e.recordBeforePublish("R5")
 	// ---- R3
 	e.fifoRemovedRule("R3")
+	// ---- R6 a skipped consumer still opens its streaming inputs (re-run terminates)
+	e.c17DrainOnSkip("R6")
 	// ---- R4 exemptions in Execute
 	sp := e.spine()
 	if sp == nil {
@@ -413,4 +418,106 @@ func (e *Env) recordBeforePublish(rule string) {
 	if n0 == 0 {
 		ob.OK(core.FuncName(a.procRun), "no out-IP is sent before its task has completed")
 	}
+}
+
+// c17DrainOnSkip (C17.R6): "re-running the workflow after it completed terminates". The producer of a streaming
+// output is never skipped (a FIFO is not an existing output) and blocks opening its pipe for writing until somebody
+// opens the other end. A consumer that is skipped because its outputs exist therefore still has to open, for
+// reading, the FIFO of every streaming in-IP (itself or in a goroutine it starts); and that open must not be able
+// to block forever itself (a producer that also has ordinary outputs IS skipped and never opens its end).
+// Decided on Task.Execute's expanded CFG with goroutine bodies expanded at their go statements.
+func (e *Env) c17DrainOnSkip(rule string) {
+	r := e.R
+	a := e.anchors()
+	ob := r.Ob(rule, "Execute:skip⇒drain-stream-inputs", "a task skipped because its outputs exist still opens the FIFO of every streaming in-IP for reading, so that the (never skipped) producer is not left blocking on its pipe forever")
+	obNB := r.Ob(rule, "Execute:drain-open-cannot-block", "the draining open does not wait for a writer (a producer that also has ordinary outputs is skipped itself and never opens its end)")
+	g, err := e.P.BuildXG(a.execute, core.XGOpts{InlineGo: true})
+	if err != nil || g == nil {
+		ob.Unknown(core.FuncName(a.execute), "expanded CFG with goroutine bodies could not be built")
+		return
+	}
+	isSkipStat := func(n *core.Node) bool {
+		if !isStat(n) {
+			return false
+		}
+		s := e.xargSym(n, 0)
+		return isCallSym(s, fnPath) && overField(s, ".OutIPs")
+	}
+	isOpen := func(n *core.Node) bool {
+		if !n.IsCallTo("os.Open", "os.OpenFile") {
+			return false
+		}
+		s := e.xargSym(n, 0)
+		return isCallSym(s, fnFifoPath) && overField(s, ".InIPs")
+	}
+	stats := g.Select(isSkipStat)
+	if len(stats) == 0 {
+		ob.Unknown(core.FuncName(a.execute), "skip test not found")
+		return
+	}
+	opens := g.Select(isOpen)
+	if len(opens) == 0 {
+		ob.Fail(core.FuncName(a.execute), "nothing in Execute's call tree (goroutines included) opens FifoPath of the elements of Task.InIPs: a skipped consumer never opens the pipe, and the producer - which is never skipped - blocks forever when a completed workflow is run again")
+		return
+	}
+	isRet := func(m *core.Node) bool { return m.Kind == core.KRootRet }
+	for _, n := range stats {
+		res := g.Run(core.Scenario{Start: n, Result: errResult(n, core.ErrAny, true), FieldLoad: e.assumeStream(true)})
+		if res.NormalReturn() == nil {
+			continue // decided by C02.R2
+		}
+		// (1) the loop over the in-IPs is entered on every skipping path
+		var loop core.LoopAt
+		found := false
+		for _, o := range opens {
+			if la, ok := e.loopOver(g, o, ".InIPs"); ok {
+				loop, found = la, true
+				break
+			}
+		}
+		if !found {
+			ob.Fail(g.Where(opens[0]), "the FIFO open is not inside a loop over Task.InIPs")
+			continue
+		}
+		test, _, okT := g.LoopTest(loop)
+		if !okT {
+			ob.Unknown(g.Where(opens[0]), "loop over the in-IPs: continuation test not recognised")
+			continue
+		}
+		if w := res.ReachesAvoiding(isRet, func(m *core.Node) bool { return m == test }); w != nil {
+			ob.Fail(g.Where(n), "with an existing output, Execute can return without looking at the task's streaming in-IPs (the never-skipped producer blocks forever on its pipe when a completed workflow is run again)")
+			continue
+		}
+		// (2) every iteration opens the pipe (streaming flag set), and the loop is not left early
+		if !e.forAllIn(ob, g, loop, opens[0], isOpen, core.Scenario{FieldLoad: e.assumeStream(true)}, "draining the streaming in-IPs of a skipped task") {
+			continue
+		}
+		ob.OK(g.Where(n), "exists ⇒ for every streaming in-IP: "+nodeDesc(opens[0])+" ("+trunc(e.xargSym(opens[0], 0).Template(), 60)+")")
+	}
+	// (3) the open cannot block
+	for _, o := range opens {
+		if o.IsCallTo("os.Open") {
+			obNB.Fail(g.Where(o), "os.Open of a FIFO waits until a writer opens it: when the producer is skipped as well (it has an ordinary output that exists) nobody ever does, and the skipped consumer hangs - or fails, when the producer's process has already removed the pipe")
+			continue
+		}
+		fl := e.xargSym(o, 1)
+		v, isInt := symInt(fl)
+		switch {
+		case !isInt:
+			obNB.Unknown(g.Where(o), "open flags are not a constant: "+fl.String())
+		case v&int64(syscall.O_NONBLOCK) != 0 || v&int64(syscall.O_RDWR) != 0:
+			obNB.OK(g.Where(o), fmt.Sprintf("flags %#x: O_NONBLOCK or O_RDWR, the open returns without a writer", v))
+		default:
+			obNB.Fail(g.Where(o), fmt.Sprintf("flags %#x: a blocking read-only open of a FIFO waits for a writer that never comes when the producer is skipped as well", v))
+		}
+	}
+}
+
+// symInt: the value of a constant integer expression (binary | of constants is folded by the compiler already).
+func symInt(s *core.Sym) (int64, bool) {
+	if s == nil || s.Op != "int" {
+		return 0, false
+	}
+	v, err := strconv.ParseInt(s.Lit, 10, 64)
+	return v, err == nil
 }
